@@ -336,8 +336,9 @@ def shards(tier, seed):
         for li in lis:
             nsh = 24
             for k in range(nsh):
-                specs.append(dict(kind="struct", file=fn, loader=li, k=k, n=nsh, full=(tier == "thorough" and li < 2),
-                                  _resumable=True))
+                # all 255 substitutions only for one file and loader (thorough); the 12-operation alphabet elsewhere
+                specs.append(dict(kind="struct", file=fn, loader=li, k=k, n=nsh,
+                                  full=(tier == "thorough" and li == 1 and fn == "full"), _resumable=True))
                 if tier == "thorough" or fn == "full":
                     specs.append(dict(kind="data", file=fn, loader=li, k=k, n=nsh, _resumable=True))
     # pairs of consistent-looking multi-byte field changes (multi-field departures)
